@@ -10,7 +10,7 @@ M2/M3: seeded request histories are replayed on every real constant from an empt
     precision and the floor/ceiling enclosures must be nested across precisions (one real number is
     compatible with every answer of every history) -- all judged by TLC (Judge: const/const5/nest)."""
 import json, random
-from .. import core, tlc, enc
+from .. import core, tlc, enc, precrec
 
 PROP = "C17"; LEVEL = "model_checking"
 ELEM = ["pi", "e", "ln2", "ln10", "phi", "degree"]
@@ -42,6 +42,80 @@ def history(rng, n, pmax):
     return out
 
 
+def per_constant(chk, mpmath, lm, name, rng, inj, events, meta, eid, nh):
+    slow = name in ("khinchin", "glaisher", "twinprime", "mertens", "euler")
+    pmax = chk.pick(300 if slow else 1200, 900 if slow else 3000)
+    fn = getattr(lm, "mpf_" + name)
+    cell = memo_cell(lm, name)
+    for h in range(nh if not slow else max(1, nh // 3)):
+        cell.memo_prec = -1; cell.memo_val = None
+        hist = history(rng, chk.pick(6, 12), pmax)
+        for step, (p, rnd) in enumerate(hist):
+            if step and rng.random() < 0.25:
+                # a request that misses and is aborted by an exception at the start of the fixed-point routine
+                pa = max(cell.memo_prec, 10) + rng.randint(30, 300)
+                mb, vb = cell.memo_prec, cell.memo_val
+                lab = "fixed:" + {"degree": "pi"}.get(name, name)
+                inj.add_code(lab, cell.__code__)
+                inj.begin((lab, 1))
+                try:
+                    fn(pa, rnd)
+                except precrec.Injected:
+                    pass
+                inj.arm = None
+                ev = enc.event(eid, "const", [], pa, rnd, enc.sym("none"), pb=0,
+                               x={"abort": True, "mb": mb, "ma": cell.memo_prec, "sameval": cell.memo_val == vb})
+                meta[eid] = {"const": name, "aborted_request": pa, "history": hist[:step]}
+                events.append(ev); eid += 1
+            mb = cell.memo_prec
+            try:
+                ans = fn(p, rnd)
+            except Exception as e:
+                chk.violation("raises/%s" % name, "constant %s at prec %d raises %r after history %s" % (name, p, e, hist[:step]),
+                              {"const": name, "history": hist[:step + 1]})
+                cell.memo_prec = -1; cell.memo_val = None
+                continue
+            ma = cell.memo_prec
+            saved = (cell.memo_prec, cell.memo_val)
+            cell.memo_prec = -1; cell.memo_val = None
+            scratch = fn(p, rnd)
+            if saved[1] is None:
+                saved = (cell.memo_prec, cell.memo_val)
+            cell.memo_prec, cell.memo_val = saved
+            ev = enc.event(eid, "const", [], p, rnd, enc.f(ans), pb=p, x={"abort": False, "mb": mb, "ma": ma, "scratch": enc.f(scratch)})
+            meta[eid] = {"const": name, "history": hist[:step + 1]}
+            events.append(ev); eid += 1
+    # five modes at one precision, and nested enclosures across precisions (via the public contexts too)
+    precs = sorted(set([rng.randint(1, pmax) for _ in range(chk.pick(8, 40))] + [1, 2, 53]))
+    encl = []
+    for p in precs:
+        try:
+            vals = [fn(p, r) for r in "nfcdu"]
+        except Exception as e:
+            chk.violation("raises/%s" % name, "constant %s at prec %d raises %r" % (name, p, e), {"const": name, "p": p})
+            cell.memo_prec = -1; cell.memo_val = None
+            vals = [fn(p, r) for r in "nfcdu"]
+        ev = enc.event(eid, "const5", [enc.f(v) for v in vals], p, "n", enc.sym("none"))
+        meta[eid] = {"const": name, "p": p, "five_modes": True}
+        events.append(ev); eid += 1
+        encl.append(enc.t([enc.f(vals[1]), enc.f(vals[2])]))
+    if name in ("pi", "e", "ln2", "ln10", "phi", "euler", "catalan") :
+        iv = mpmath.iv
+        for p in precs[:6]:
+            iv.prec = p
+            ab = getattr(iv, name)._mpi_ if hasattr(getattr(iv, name), "_mpi_") else (+getattr(iv, name))._mpi_
+            encl_iv = enc.t([enc.f(ab[0]), enc.f(ab[1])])
+            ev = enc.event(eid, "nest", [enc.t([enc.f(fn(p, "f")), enc.f(fn(p, "c"))]), encl_iv][::-1], p, "n", enc.sym("none"))
+            meta[eid] = {"const": name, "p": p, "iv_contains_mp_enclosure": True}
+            events.append(ev); eid += 1
+        iv.prec = 53
+    ev = enc.event(eid, "nest", encl, 0, "n", enc.sym("none"))
+    meta[eid] = {"const": name, "nested_precisions": precs}
+    events.append(ev); eid += 1
+
+    return eid
+
+
 def main():
     chk = core.Check(PROP, LEVEL)
     mpmath = core.use_repo()
@@ -58,52 +132,23 @@ def main():
             else:
                 chk.machinery(cfg + ": TLC failed\n" + res["output"][-2000:])
     rng = random.Random(chk.seed * 65537 + 17)
+    inj = precrec.Injector({})
     events, meta = [], {}
     eid = 0
     nh = chk.pick(3, 25)
+    def reset_all():
+        for nm in ELEM + OTHER + ["sqrtpi", "ln_sqrt2pi"]:
+            try:
+                cc = memo_cell(lm, nm); cc.memo_prec = -1; cc.memo_val = None
+            except Exception:
+                pass
     for name in ELEM + OTHER:
-        slow = name in ("khinchin", "glaisher", "twinprime", "mertens", "euler")
-        pmax = chk.pick(300 if slow else 1200, 900 if slow else 3000)
-        fn = getattr(lm, "mpf_" + name)
-        cell = memo_cell(lm, name)
-        for h in range(nh if not slow else max(1, nh // 3)):
-            cell.memo_prec = -1; cell.memo_val = None
-            hist = history(rng, chk.pick(6, 12), pmax)
-            for step, (p, rnd) in enumerate(hist):
-                mb = cell.memo_prec
-                if name == "degree":
-                    mb = cell.memo_prec
-                ans = fn(p, rnd)
-                ma = cell.memo_prec
-                saved = (cell.memo_prec, cell.memo_val)
-                cell.memo_prec = -1; cell.memo_val = None
-                scratch = fn(p, rnd)
-                cell.memo_prec, cell.memo_val = saved
-                ev = enc.event(eid, "const", [], p, rnd, enc.f(ans), pb=p, x={"mb": mb, "ma": ma, "scratch": enc.f(scratch)})
-                meta[eid] = {"const": name, "history": hist[:step + 1]}
-                events.append(ev); eid += 1
-        # five modes at one precision, and nested enclosures across precisions (via the public contexts too)
-        precs = sorted(set([rng.randint(1, pmax) for _ in range(chk.pick(8, 40))] + [1, 2, 53]))
-        encl = []
-        for p in precs:
-            vals = [fn(p, r) for r in "nfcdu"]
-            ev = enc.event(eid, "const5", [enc.f(v) for v in vals], p, "n", enc.sym("none"))
-            meta[eid] = {"const": name, "p": p, "five_modes": True}
-            events.append(ev); eid += 1
-            encl.append(enc.t([enc.f(vals[1]), enc.f(vals[2])]))
-        if name in ("pi", "e", "ln2", "ln10", "phi", "euler", "catalan") :
-            iv = mpmath.iv
-            for p in precs[:6]:
-                iv.prec = p
-                ab = getattr(iv, name)._mpi_ if hasattr(getattr(iv, name), "_mpi_") else (+getattr(iv, name))._mpi_
-                encl_iv = enc.t([enc.f(ab[0]), enc.f(ab[1])])
-                ev = enc.event(eid, "nest", [enc.t([enc.f(fn(p, "f")), enc.f(fn(p, "c"))]), encl_iv][::-1], p, "n", enc.sym("none"))
-                meta[eid] = {"const": name, "p": p, "iv_contains_mp_enclosure": True}
-                events.append(ev); eid += 1
-            iv.prec = 53
-        ev = enc.event(eid, "nest", encl, 0, "n", enc.sym("none"))
-        meta[eid] = {"const": name, "nested_precisions": precs}
-        events.append(ev); eid += 1
+      try:
+        eid = per_constant(chk, mpmath, lm, name, rng, inj, events, meta, eid, nh)
+      except Exception as e:
+        chk.violation("raises/%s" % name, "evaluating constant %s raised %r in some history" % (name, e), {"const": name, "exc": repr(e)})
+        reset_all()
+    inj.close()
     bad = tlc.judge(events, tag=PROP, shards=8)
     for ev in events:
         chk.count(); chk.distinct(json.dumps(meta[ev["id"]], sort_keys=True), True)
